@@ -77,7 +77,7 @@ def _run(fn):
         return "raise:" + type(e).__name__, e
 
 
-def ref_apply(L, rec, mod, grad_mode=None, contiguous=False):
+def ref_apply(L, rec, mod, grad_mode=None, contiguous=False, flip_rg=False):
     """Apply `mod` to fresh copies of the recorded arguments."""
     torch = L.torch
     gm = grad_mode or rec["op"].get("grad_mode", "ambient")
@@ -85,7 +85,7 @@ def ref_apply(L, rec, mod, grad_mode=None, contiguous=False):
         base, x = make_tensor(rec["op"]["arg"])
         if contiguous:
             x = x.contiguous().clone()
-        if rec["op"].get("requires_grad"):
+        if bool(rec["op"].get("requires_grad")) != bool(flip_rg):
             x.requires_grad_(True)
         leaves = [x] if x.requires_grad else []
         oc, val = _run(lambda: call_with_mode(torch, lambda: mod(x), gm))
@@ -228,10 +228,16 @@ def check_c15(w, rec, st):
     # I6: whether autograd is recording must not matter (reference context only)
     if kind in ("call", "inverse") and rec["op"].get("i6"):
         gm = rec["op"].get("grad_mode", "ambient")
-        other = "no_grad" if gm in ("ambient", "enable_grad") else "ambient"
+        oid = rec["op"].get("id", 0) if isinstance(rec["op"].get("id", 0), int) else 0
+        if gm in ("ambient", "enable_grad"):
+            other = "no_grad" if oid % 2 == 0 else "inference"
+        else:
+            other = "ambient"
+        flip_rg = (oid // 2) % 2 == 1      # also toggle whether the input requires grad
         L = fresh(rec["recipe"][0][3])
         mod = build_from_recipe(L, rec["recipe"])
-        oc2, val2, _ = ref_apply(L, rec, mod, grad_mode=other)
+        oc2, val2, _ = ref_apply(L, rec, mod, grad_mode=other, flip_rg=flip_rg)
+        other = other + ("+requires_grad flipped" if flip_rg else "")
         st["i6"] += 1
         if oc2 != oc:
             w.violation("I6-grad-mode", rec, "outcome %s under %s but %s under %s" % (oc, gm, oc2, other))
